@@ -64,6 +64,7 @@ type Finding struct {
 	Property []string `json:"property"`
 	ID       string   `json:"id"`
 	Verdict  string   `json:"verdict"`  // exact verdict or ORACLE clause key prefix
+	Verdicts []string `json:"verdicts"` // alternative: any of these prefixes
 	Events   []string `json:"events"`   // all must be present among the execution's events/tags
 	Blocked  []string `json:"blocked"`  // all must be substrings of the violation key
 	KeyHas   []string `json:"key_has"`  // substrings of key
@@ -111,6 +112,17 @@ func (fd *Finding) matches(prop string, fr *FoundRec) bool {
 	}
 	if fd.Verdict != "" && !strings.HasPrefix(fr.Key, fd.Verdict) {
 		return false
+	}
+	if len(fd.Verdicts) > 0 {
+		any := false
+		for _, v := range fd.Verdicts {
+			if strings.HasPrefix(fr.Key, v) {
+				any = true
+			}
+		}
+		if !any {
+			return false
+		}
 	}
 	for _, e := range fd.Events {
 		has := false
@@ -207,7 +219,7 @@ func runItem(prop, tier string, idx int, deadline time.Time, maxExecs int) *Item
 		r.WallMs = time.Since(start).Milliseconds()
 		return r
 	}
-	st := explore.Explore(it.Exec, explore.Options{Bound: it.Bound, Strategy: it.Strat, Deadline: deadline, MaxExecs: maxExecs})
+	st := explore.Explore(it.Exec, explore.Options{Bound: it.Bound, Strategy: it.Strat, Deadline: deadline, MaxExecs: maxExecs, Cfg: it.Cfg})
 	r.Execs, r.Steps, r.Points, r.ChoicePoints = int64(st.Execs), st.Steps, st.Points, st.ChoicePoints
 	r.ByDev = st.ByDev
 	r.Distinct = int64(len(st.Distinct))
@@ -229,7 +241,8 @@ func runItem(prop, tier string, idx int, deadline time.Time, maxExecs int) *Item
 		}
 		seen[k] = true
 		fr := FoundRec{Item: idx, Name: it.Name, Strategy: it.Strat, Choices: f.Choices, Verdict: f.Outcome.Violation, Key: f.Outcome.Key, Detail: f.Outcome.Detail, Events: f.Outcome.Events}
-		cfg := mcrt.Config{Strategy: it.Strat}
+		cfg := it.Cfg
+		cfg.Strategy = it.Strat
 		for i := 0; i < 5; i++ {
 			o, bad := explore.RunOne(it.Exec, cfg, f.Choices)
 			if bad != "" || o.Key != f.Outcome.Key || o.Obs != f.Outcome.Obs {
@@ -636,7 +649,9 @@ func cmdReplay(args []string) {
 		fmt.Println("no violation on replay")
 		return
 	}
-	o, bad := explore.RunOne(it.Exec, mcrt.Config{Strategy: rec.Strategy, Trace: true}, rec.Choices)
+	rcfg := it.Cfg
+	rcfg.Strategy, rcfg.Trace = rec.Strategy, true
+	o, bad := explore.RunOne(it.Exec, rcfg, rec.Choices)
 	for _, l := range o.Res.Trace {
 		fmt.Println(l)
 	}
@@ -670,7 +685,9 @@ func cmdRun(args []string) {
 		choices = append(choices, c)
 	}
 	it := family(prop).Items(*tier)[idx]
-	o, bad := explore.RunOne(it.Exec, mcrt.Config{Strategy: it.Strat, Trace: !*quiet}, choices)
+	rcfg := it.Cfg
+	rcfg.Strategy, rcfg.Trace = it.Strat, !*quiet
+	o, bad := explore.RunOne(it.Exec, rcfg, choices)
 	for _, l := range o.Res.Trace {
 		fmt.Println(l)
 	}
